@@ -202,6 +202,14 @@ func genC07(c *Ctx) {
 			emit(true, fmt.Sprintf("buf c=1 n=%d size=%d sync=0 osat=1 ofail=%s script=-", 2*cc+6, cc+1, of))
 		}
 	}
+	// (f') the SOURCE fails to open: the asynchronous stage never got a reader going; its stop / close sequence must not
+	//      wait for one (first materialisation of the stream value, and again after it)
+	for cc := 1; cc <= 2; cc++ {
+		for _, op := range []string{"cmap", "nest", "buf", "ccons"} {
+			emit(true, fmt.Sprintf("%s c=%d n=%d size=3 sync=0 mg=0 sofail=1 script=-", op, cc, 4+cc))
+			emit(true, fmt.Sprintf("%s c=%d n=%d size=3 sync=0 mg=0 sofail=1 rep=2 script=-", op, cc, 4+cc))
+		}
+	}
 	// (g) the SAME stream value materialised 2-3 times; a later materialisation ends early while the reader is parked
 	//     inside Emit (state kept in the provider object across materialisations shows from the second run on)
 	for _, op := range []string{"cmap", "ccons", "buf", "nest"} {
